@@ -2,6 +2,7 @@ package rules
 
 import (
 	"fmt"
+	"go/ast"
 	"go/constant"
 	"go/token"
 	"go/types"
@@ -21,6 +22,7 @@ func runC18(r *engine.Run) {
 	r.Rule("AGREE-op", "each named helper computes its result with the operator its name promises, on its parameters in order (AddCoin c+b, MinusCoin c-b, MultCoin c*b, DistributeCoin c/d and c%d, the Int64/Float64 variants delegate to them after conversion); ToZCN returns the Float64() of a decimal and does no floating-point arithmetic or integer-to-float conversion itself (scaling by 10^10 happens in decimal arithmetic, as in ParseZCN); ParseZCN converts its argument with decimal.NewFromFloat (the exact shortest decimal) and with no other decimal constructor, so the too-many-decimals rejection stays reachable")
 	r.Rule("ARG-finite", "every helper taking a float64 reports success (nil error) only by returning the result of another float helper applied to a value computed from that argument, or on paths where math.IsNaN(argument) tested false and the argument is bounded from above (IsInf false or a comparison with a constant): no shortcut returns an amount for NaN or +Inf; when the argument is folded into another value before it is handed on (a product), it tested not negative first")
 	r.Rule("PURE-acyclic", "the static call graph of the hand-written functions of core/currency has no cycle: no helper can recurse without bound (none panics, none overflows the stack)")
+	r.Rule("CONST-exact", "in core/currency an integer constant that is handed to a float64 parameter or converted to float64 (typed syntax tree: identifiers, selectors and literals as call or conversion arguments) is exactly representable as a float64: MaxInt64 and MaxUint64 are not, and a bound built from the rounded value lets amounts past the real limit through")
 	r.NotDec = append(r.NotDec, "decimal-exponent semantics of ParseZCN/ToZCN (library arithmetic)", "format-then-parse round trip")
 	r.Assume = append(r.Assume, "Coin(e.IntPart()) in ParseZCN: range established through the decimal API (Sign()==-1 and GreaterThan(maxDecimal) rejections must hold on every path), not through integer guards")
 	arith(r)
@@ -28,6 +30,7 @@ func runC18(r *engine.Run) {
 	argFinite(r, "ARG-finite")
 	zcnDecimal(r, "AGREE-op")
 	pureAcyclic(r, "PURE-acyclic")
+	constExact(r, "CONST-exact")
 }
 
 // pureAcyclic: the currency helpers terminate: the static call graph of the
@@ -912,4 +915,85 @@ func zcnDecimal(r *engine.Run, rule string) {
 	}
 	r.Check(bad == "" && fromDecimal, rule, fn(f)+"|decimal scaling", r.P.Pos(f.Pos()), "the amount is scaled by the decimal library; ToZCN does no float arithmetic of its own",
 		"ToZCN no longer scales in decimal arithmetic ("+bad+"): the result is rounded twice, so formatting then parsing an amount above 2^53 units returns another amount")
+}
+
+// constExact: an integer constant handed to a float64 parameter (or converted to
+// float64) is rounded at compile time. In this package the constants are range
+// bounds (MaxInt64, MaxUint64): a bound that silently moves to the next power of
+// two lets amounts past the real limit through, and the conversion that follows
+// wraps them.
+//
+// Rule (typed syntax tree of core/currency): wherever an expression that denotes
+// an integer constant is given the type float64 - as a call argument, in a
+// conversion or in an assignment - the constant is exactly representable as a
+// float64, or the place is a comparison operand (a rounded bound on one side of
+// a float comparison is the idiom the range checks use and is judged by
+// ARG-finite/ARITH).
+func constExact(r *engine.Run, rule string) {
+	pk := r.P.Pkgs[engine.RepoMod+"/"+pkgCur]
+	if pk == nil || pk.TypesInfo == nil {
+		r.Anchor(rule, fmt.Errorf("unresolved anchor: typed syntax of core/currency"))
+		return
+	}
+	n := 0
+	o := ord{}
+	for _, file := range pk.Syntax {
+		ast.Inspect(file, func(nd ast.Node) bool {
+			call, ok := nd.(*ast.CallExpr)
+			if !ok {
+				return true
+			}
+			// parameter types of the callee (a conversion float64(x) has one "parameter")
+			var paramType func(i int) types.Type
+			if tv, ok := pk.TypesInfo.Types[call.Fun]; ok && tv.IsType() {
+				paramType = func(int) types.Type { return tv.Type }
+			} else if sig, ok := pk.TypesInfo.TypeOf(call.Fun).(*types.Signature); ok {
+				paramType = func(i int) types.Type {
+					if i < sig.Params().Len() {
+						return sig.Params().At(i).Type()
+					}
+					return nil
+				}
+			} else {
+				return true
+			}
+			for i, a := range call.Args {
+				pt := paramType(i)
+				if pt == nil {
+					continue
+				}
+				if b, ok := pt.Underlying().(*types.Basic); !ok || b.Kind() != types.Float64 {
+					continue
+				}
+				// the exact value of the constant the argument names
+				var exact constant.Value
+				switch x := ast.Unparen(a).(type) {
+				case *ast.Ident:
+					if c, ok := pk.TypesInfo.Uses[x].(*types.Const); ok {
+						exact = c.Val()
+					}
+				case *ast.SelectorExpr:
+					if c, ok := pk.TypesInfo.Uses[x.Sel].(*types.Const); ok {
+						exact = c.Val()
+					}
+				case *ast.BasicLit:
+					if x.Kind == token.INT {
+						exact = constant.MakeFromLiteral(x.Value, token.INT, 0)
+					}
+				}
+				if exact == nil || exact.Kind() != constant.Int {
+					continue
+				}
+				n++
+				f64, _ := constant.Float64Val(exact)
+				back := constant.MakeFloat64(f64)
+				same := constant.Compare(constant.ToFloat(exact), token.EQL, back)
+				pos := r.P.Pos(a.Pos())
+				r.Check(same, rule, o.next("core/currency|integer constant as float64"), pos, "the integer constant "+exact.ExactString()+" is exactly representable as a float64",
+					"the integer constant "+exact.ExactString()+" is handed over as a float64 and silently becomes "+back.ExactString()+": a range bound built from it lies past the real limit, amounts between the two pass the check and the integer conversion that follows wraps them")
+			}
+			return true
+		})
+	}
+	r.OK(rule, "core/currency|constants", "-", fmt.Sprintf("%d integer constants given the type float64 in calls and conversions inspected", n))
 }
